@@ -63,9 +63,10 @@ class Gen:
                 loop = int(lp.strip().split("=")[1])
                 hs = []
                 for t in body.split():
-                    k, st, lis, bnd, ipc, rd, con, pend, dly, rding, infl = t.split(",")
+                    k, st, lis, bnd, ipc, rd, con, pend, dly, rding, infl, opt = t.split(",")
                     hs.append(dict(kind=k, st=st, listening=lis == "1", bound=bnd == "1", ipc=ipc == "1", readable=rd == "1",
-                                   connected=con == "1", pending=int(pend), delayed=dly == "1", reading=rding == "1", inflight=int(infl)))
+                                   connected=con == "1", pending=int(pend), delayed=dly == "1", reading=rding == "1", inflight=int(infl),
+                                   opts=opt == "1"))
         self.own, self.hs, self.loop = own, hs, loop
 
     def emit(self, *ls):
@@ -132,12 +133,25 @@ class Gen:
             if kind == "sockpair" and len(new) == 2:
                 self.peer[new[0]], self.peer[new[1]] = new[1], new[0]
         elif r < 32:                                                   # uv_*_open
-            hk = rng.choice(["tcp", "pipe", "udp", "pipe"])
+            hk = rng.choice(["tcp", "pipe", "udp", "pipe", "tcp"])
             hs = self.live(hk)
-            fk = {"tcp": ["tcpsock"], "pipe": ["unixsock", "sockpair", "pipe"], "udp": ["udpsock"]}[hk]
-            fs = [f for f in self.users(fk) if f not in self.polled]     # a polled fd is refused with UV_EEXIST
-            if hs and fs:
-                self.emit(f"open h{rng.choice(hs)} f{rng.choice(fs)}")
+            if hs:
+                h = rng.choice(hs)
+                fk = {"tcp": ["tcpsock"], "pipe": ["unixsock", "sockpair", "pipe"], "udp": ["udpsock"]}[hk]
+                if hk == "tcp" and self.hs[h]["opts"]:
+                    # deferred TCP_NODELAY / keep-alive: also descriptors on which the option cannot be set
+                    fk = ["tcpsock", "unixsock", "udpsock", "sockpair", "tcpsock"]
+                fs = [f for f in self.users(fk) if f not in self.polled]     # a polled fd is refused with UV_EEXIST
+                if not fs and hk == "tcp" and self.hs[h]["opts"]:
+                    new = self.emit("ufd " + rng.choice(["unixsock", "tcpsock", "udpsock"]))
+                    for n_ in new:
+                        self.ukind[n_] = self.lines[-1].split()[1]
+                    fs = new
+                if fs:
+                    inj = self.maybe_fail([("nodelay", 1, [1, 22])], 3) if hk == "tcp" and self.hs[h]["opts"] else []
+                    self.emit(*inj, f"open h{h} f{rng.choice(fs)}")
+                    if rng.below(3) == 0 and self.hs[h]["st"] == "live":
+                        self.emit(f"close h{h}")        # a failed open must leave the descriptor to the caller
         elif r < 42:                                                   # bind
             # only handles whose socket (if any) libuv created itself and has not bound/connected yet: the return
             # code of bind(2) on adopted / accepted / connected sockets depends on kernel state the model does not track
@@ -158,7 +172,10 @@ class Gen:
                         var = f"same h{rng.choice(cands)}"
                 if k == "udp" and var.startswith("same") and self.hs[h]["bound"]:
                     var = "bad"
-                self.emit(*self.maybe_fail([("socket", 1, [24, 23])]), f"bind h{h} {var}")
+                inj = self.maybe_fail([("socket", 1, [24, 23])])
+                if k == "tcp" and self.hs[h]["opts"] and not inj:
+                    inj = self.maybe_fail([("nodelay", 1, [1, 22])], 2)
+                self.emit(*inj, f"bind h{h} {var}")
         elif r < 48:
             hs = [i for i in self.live("tcp") + self.live("pipe") if not self.hs[i]["connected"] and not self.hs[i]["readable"]
                   # uv_listen on a server that still holds an un-accepted connection re-arms POLLIN and trips
@@ -250,8 +267,27 @@ class Gen:
                 if fs:
                     self.emit(f"fs_close f{rng.choice(fs)}")
         elif r < 93:
-            v = rng.below(8)
-            if v >= 6:                                                  # calls outside the catalogue: monitors only
+            v = rng.below(9)
+            if v == 8 and not self.busy():                              # a full descriptor queue on an IPC pipe, allocation failures
+                ipcs = []
+                for i in self.live("pipe"):
+                    if self.hs[i]["ipc"] and self.hs[i]["reading"]:
+                        io = [int(f[1:]) for f, o in self.own.items() if o == f"h{i}.io"]
+                        if io and io[0] in self.peer and self.own.get(f"f{self.peer[io[0]]}") == "U":
+                            ipcs.append((i, self.peer[io[0]]))
+                if ipcs:
+                    h, pf = rng.choice(ipcs)
+                    self.emit(f"policy h{h} " + rng.choice(["hold", "hold", "accept"]))
+                    kinds = " ".join(rng.choice(["tcp", "udp", "unix"]) for _ in range(rng.choice([2, 3, 9, 10, 12])))
+                    self.emit(f"ipc_send f{pf} h{h} {kinds}")
+                    self.emit(*self.maybe_fail([("malloc", 1, [12]), ("realloc", 1, [12]), ("malloc", 1, [12])], 2), "run")
+            elif v == 7:                                                  # socket options, deferred when there is no socket yet
+                ts = self.live("tcp")
+                if not ts or rng.below(3) == 0:
+                    self.emit("tcp_init " + rng.choice(["unspec", "unspec", "inet"])); ts = [len(self.hs) - 1]
+                if self.hs[ts[-1]]["st"] == "live":
+                    self.emit(*self.maybe_fail([("nodelay", 1, [1])], 5), rng.choice(["nodelay", "nodelay", "keepalive"]) + f" h{rng.choice(ts)}")
+            elif v == 6:                                                # calls outside the catalogue: monitors only
                 self.emit("util " + rng.choice(["cpu_info", "exepath", "memory", "uptime", "ifaddrs", "random", "passwd",
                                                 "scandir", "readdir", "stat", "realpath", "mkdtemp"]))
             elif v == 5:                                                # a full backlog (more than any per-wakeup batch)
